@@ -81,9 +81,9 @@ type Broker struct {
 
 type quiet struct{}
 
-func (quiet) Name() string                               { return "quiet" }
-func (quiet) Configure(map[string]interface{}) error      { return nil }
-func (quiet) Printf(format string, v ...interface{})      {}
+func (quiet) Name() string                           { return "quiet" }
+func (quiet) Configure(map[string]interface{}) error { return nil }
+func (quiet) Printf(format string, v ...interface{}) {}
 
 // StartBroker creates a real broker.Service (not listening on any socket).
 func StartBroker(c *kernel.Ctx, o BrokerOpts) *Broker {
@@ -184,11 +184,19 @@ func Request(c *kernel.Ctx, cl *mqttc.Client, name string, body any) (*Resp, []p
 
 // Keygen obtains a channel key through a real emitter/keygen/ request.
 func Keygen(c *kernel.Ctx, cl *mqttc.Client, master, channel, typ string, ttl int) string {
-	r, _ := Request(c, cl, "keygen", map[string]any{"key": master, "channel": channel, "type": typ, "ttl": ttl})
-	if r == nil || r.Status != 200 || len(r.Key) != 32 {
-		c.Harnessf("keygen %s %s failed: %+v", channel, typ, r)
+	// Two keys requested with the same parameters differ only in a 15-bit random salt: once in 32767
+	// they are the same string, and a world that treats them as two keys (bans one, names both in its
+	// log) would then report nonsense. Ask again until the key is new for this run.
+	for try := 0; ; try++ {
+		r, _ := Request(c, cl, "keygen", map[string]any{"key": master, "channel": channel, "type": typ, "ttl": ttl})
+		if r == nil || r.Status != 200 || len(r.Key) != 32 {
+			c.Harnessf("keygen %s %s failed: %+v", channel, typ, r)
+		}
+		if c.Once("key:"+r.Key) || try > 20 {
+			return r.Key
+		}
+		c.Probe("keygen-returned-a-key-issued-before")
 	}
-	return r.Key
 }
 
 // ConnectClient sends CONNECT, expects CONNACK 0, and learns the connection id.
